@@ -340,6 +340,13 @@ Proof.
   unfold C, clean. cbn [p_comps]. rewrite A. reflexivity.
 Qed.
 
+(** Whatever an earlier run left at <output-dir>/latest - nothing, a link to a
+    run directory that still exists, a link to one that was erased - the new
+    run replaces it by a link to its own directory. *)
+Theorem alias_always_replaced before d : before <> AOther ->
+  refresh_alias before d = Some (ALink (d_target d)).
+Proof. destruct before; intros H; try reflexivity. contradiction. Qed.
+
 (** * C12: everything a run writes is under the run directory *)
 Lemma inside_refl r : inside r r = true.
 Proof.
